@@ -122,6 +122,21 @@ def _scope_file_cases(ctx: Ctx, n: int) -> list[dict]:
     return cases
 
 
+def _scope_json_cases(ctx: Ctx, n: int) -> list[dict]:
+    """scoped reads of JSON sources: every key is a string, also one that spells a number ('1', '007', '-5', '1.5', 'true')"""
+    rng = ctx.rng
+    cases = []
+    keys = ["a", "sub", "1", "007", "0", "-5", "1.5", "true", "none", "10", "cases", "x y", "é"]
+    for _ in range(n):
+        t = gen.tree_dict(rng, 3, 3, leaf=lambda r: gen.scalar(r, strings=False), key_fn=lambda r: r.choice(keys), p_dict=0.55, p_list=0.1)
+        paths = [list(p) for p in gen.all_paths(t) if all(isinstance(k, str) for k in p)]
+        for p in rng.sample(paths, min(4, len(paths))) + [["nope"], [1], ["1", "nope"]]:
+            cases.append({"kind": "readscope", "json": True, "t": enc(t), "p": [enc_key(k) for k in p]})
+        # a native file with an int key next to an included JSON file with the string key of the same spelling
+        cases.append({"kind": "readscope_mixed", "k": rng.choice([1, 7, 10]), "p_is_str": rng.random() < 0.5})
+    return cases
+
+
 def impl_set(t, p, x):
     from dictIO.utils.dict import set_global_key
     t2 = copy.deepcopy(t)
@@ -192,6 +207,8 @@ def process(ctx: Ctx, cases: list[dict]) -> None:
             replies[i] = r
     for i, c in enumerate(cases):
         k = c["kind"]
+        if k == "readscope_mixed":
+            _process_mixed(ctx, c); continue
         t = dec(c["t"])
         p = [dec_key(x) for x in c.get("p", [])]
         ctx.case(c, len(p) >= 2 or k == "find", (k,))
@@ -253,10 +270,11 @@ def process(ctx: Ctx, cases: list[dict]) -> None:
         elif k == "readscope":
             try:
                 with impl.scratch() as td:
-                    DictWriter.write(copy.deepcopy(t), td / "f", mode="w")
-                    full = impl.plain(DictReader.read(td / "f"))
+                    fname = "f.json" if c.get("json") else "f"
+                    DictWriter.write(copy.deepcopy(t), td / fname, mode="w")
+                    full = impl.plain(DictReader.read(td / fname))
                     try:
-                        r = impl.plain(DictReader.read(td / "f", scope=list(p)))
+                        r = impl.plain(DictReader.read(td / fname, scope=list(p)))
                     except SystemExit:
                         r = "exit"
             except Exception as e:  # noqa: BLE001
@@ -275,12 +293,33 @@ def process(ctx: Ctx, cases: list[dict]) -> None:
                 ctx.violation("DictReader.read(scope=p) is not the sub-dict at p", c, enc(r) if isinstance(r, dict) else r, enc(exp) if isinstance(exp, dict) else exp)
 
 
+def _process_mixed(ctx: Ctx, c: dict) -> None:
+    from dictIO import DictReader
+    import json as _json
+    k = c["k"]
+    ctx.case(c, True, ("readscope_mixed",))
+    try:
+        with impl.scratch() as td:
+            (td / "inc.json").write_text(_json.dumps({str(k): {"name": "from_json"}, "other": {"z": 1}}))
+            (td / "root").write_text(f"{k}\n{{\n    name from_native;\n}}\n#include 'inc.json'\n")
+            try:
+                r = spec.strip_placeholders(impl.plain(DictReader.read(td / "root", scope=[str(k) if c["p_is_str"] else k])))
+            except SystemExit:
+                r = "exit"
+    except Exception as e:  # noqa: BLE001
+        ctx.violation("read(scope=...) raises", c, repr(e), "dict"); return
+    exp = {"name": "from_json" if c["p_is_str"] else "from_native"}
+    if r != exp:
+        ctx.violation("DictReader.read(scope=p) is not the sub-dict at p (int key and string key of the same spelling)", c, r, exp)
+
+
 def run(ctx: Ctx) -> None:
     cases = []
     for e in getattr(ctx, "fixed_witnesses", []):
         cases.append(e["witness"]); ctx.corpus_cases += 1
     cases += gen_cases(ctx, ctx.n(250, 4000))
     cases += _scope_file_cases(ctx, ctx.n(40, 600))
+    cases += _scope_json_cases(ctx, ctx.n(40, 600))
     process(ctx, cases)
 
 
